@@ -170,6 +170,7 @@ pub fn run(ctx: &Ctx) -> i32 {
     if !canary {
         acc.inconclusive.push("comparison canary did not fire".into());
     }
+    acc.witnesses();
     acc.finish(
         "exploration",
         "accepted G-wt programs (3 of 4) and accepted kind-breaking mutants (1 of 4); per program 3 random sequences of 1-5 rewrites out of: parenthesise, name with a fresh let, inline a declaration, abstract into a single-use function, rename a binder (declaration, @reference, parameter, rec binder, qualifier), permute statements, insert blanks/newlines/comments between tokens, move a dependency-closed group of declarations into an imported module; every intermediate program must be accepted and emit the original document up to generated names (for an @name renaming: with that component renamed); mutants only get the purely syntactic rewrites (parenthesise, trivia); non-trivial = a sequence of >=2 applied rewrites; distinct by (sources, rewrite trail)",
